@@ -178,6 +178,9 @@ type c01Env struct {
 	// svcRules: service id -> rules, obtained from the product's own service
 	// table through the exported ApplyBlockedServicesList.
 	svcRules map[string][]*rules.NetworkRule
+	// upRcode is the response code of the scripted upstream answer of the
+	// current case (C02 only; zero is NOERROR).
+	upRcode int
 }
 
 func c01Atom(r *c01Rule, host string, qtype uint16, cliIP netip.Addr, cliName string) bool {
